@@ -60,7 +60,7 @@ N_FILES = {"quick": 640, "thorough": 6000}
 N_PER_CLASS = {"quick": 2, "thorough": 12}       # blocks of BLOCK sessions per forced class
 N_PROBE = {"quick": 2, "thorough": 8}
 
-FORCED_LEAVES = sorted(set(L.LEAF_KINDS) - {"parsed"})
+FORCED_LEAVES = sorted(set(L.LEAF_KINDS))
 ROI_PRE = [(r, p) for r in L.ROI_KINDS for p in sorted(set(L.PRE_KINDS))]
 FORCED_LINKS = sorted(set(L.LINK_KINDS))
 
@@ -194,6 +194,11 @@ def signature_for(diff, gen, ses, before_dc, after_dc):
         sig["slice_state_on_later_dataset"] = True
     if desc.get("removed") is not None:
         sig["dataset_removed_before_save"] = True
+    if what in ("component_units", "foreign_attribute", "subset_mask") and \
+            any(d.get("file") in ("csv", "hdf5") and d["units"] for d in desc["data"]):
+        sig["units_set_on_file_backed_column"] = True
+        if any(l["link"] == "LinkSameWithUnits" for l in desc["links"]):
+            sig["unit_link_in_session"] = True
     return sig
 
 
@@ -208,6 +213,8 @@ def exc_signature(stage, exc, gen, desc=None):
             sig["derived_component_first_overall"] = True
         if desc.get("removed") is not None:
             sig["dataset_removed_before_save"] = True
+        if any(d.get("file") in ("csv", "hdf5") and d["units"] for d in desc["data"]):
+            sig["units_set_on_file_backed_column"] = True
     if hasattr(exc, "_vf_type"):
         sig["failing_type"] = exc._vf_type
     if hasattr(exc, "_vf_class"):
